@@ -21,9 +21,19 @@ ASSUMPTIONS = [
     "repr is deterministic in the sense of DESIGN.md section 7: same object -> same string; independent rebuild by the same construction sequence -> same string",
 ]
 TRUSTED_EXTRA = ["fact translator harness/facts/eqfields.py (python ast) regenerates coq/generated/Facts_eq.v from /repo on every run"]
+from ..facts import effects as _effects  # noqa: E402
+_FX = _effects.obligation("C19")
+EXTRA_PROOF_FILES.append(_FX[0])
+TRUSTED_EXTRA.append(_FX[1])
 
 
 def regenerate_facts():
+    ok1, msg1 = _regenerate_eq_facts()
+    ok2, msg2 = _FX[2]()
+    return ok1 and ok2, "; ".join(m for m in (msg1, msg2) if m)
+
+
+def _regenerate_eq_facts():
     try:
         d = eqfields.emit(os.environ.get("KV_REPO", "/repo"), os.path.join(ROOT, "coq", "generated", "Facts_eq.v"))
         msg = "; ".join(d["bad_ops"] + d["problems"])
@@ -382,6 +392,28 @@ def run(tier: str, rng: random.Random, proof_ok: bool) -> dict:
             n_pairs += 1
             if o1 == o2:
                 report("C19:equal-but-different-behaviour", f"{o1!r} == {o2!r}", None)
+    # (4) an equal validator that is busy (other calls suspended inside it) behaves like an idle one
+    from .hist import overlap_violation
+    AINT = ("Scalar", ("KInt",), None, [], [], [("APred", N(2))])
+    busy = [(("ListV", AINT, [], [], None), [("VList", [G.I(2), G.I(4)]), ("VList", [G.I(3), G.I(1), G.I(2)]), ("VList", [G.I(2), G.S("x")])]),
+            (("UTupleV", AINT, [], [], None), [("VTuple", [G.I(2)]), ("VTuple", [G.I(3), G.I(6)])]),
+            (("MapV", AINT, AINT, [], [], None), [("VDict", [P(G.I(2), G.I(4))]), ("VDict", [P(G.I(1), G.I(2)), P(G.I(4), G.I(3))])]),
+            (("DictAnyV", [P(G.S("a"), AINT), P(G.S("b"), AINT)], None, None, False),
+             [("VDict", [P(G.S("a"), G.I(2)), P(G.S("b"), G.I(3))]), ("VDict", [P(G.S("a"), G.I(1))])])]
+    n_busy = 0
+    import itertools
+    for vt, alpha2 in busy:
+        for xts in itertools.product(alpha2, repeat=2):
+            v, c = overlap_violation("C19", vt, [], list(xts), 300 if tier == "quick" else 20000)
+            n_busy += c
+            if v:
+                v["what"] = "two equal validators, one of them busy with another call: " + v["what"]
+                report("C19:equal-but-busy", v["what"], v["replay_case"])
+    # (5) equal validators built at different times: record classes that share a qualified name
+    #     (a class factory), other validators built in between
+    r = construction_history(tier)
+    if r:
+        report("C19:equal-but-construction-history", r, {"construction_history": True})
     # model vs implementation on the equality verdicts
     mism = model_verdicts(lines, violations)
     cov = {"evaluations": n_pairs + n_rebuild + n_probe, "distinct_nontrivial": n_pairs,
@@ -391,6 +423,81 @@ def run(tier: str, rng: random.Random, proof_ok: bool) -> dict:
            "samples": samples or [{"note": "see rule"}], "traces_validated_against_impl": len(lines),
            "corr_wall_s": round(time.time() - t0, 1)}
     return {"violations": violations, "coverage": cov}
+
+
+def _factory_classes():
+    """pairs of distinct classes with one qualified name and different defaults / requiredness"""
+    import dataclasses
+    from typing import NamedTuple, TypedDict
+
+    def nt(default):
+        if default is None:
+            class Settings(NamedTuple):
+                host: str
+                retries: int
+        else:
+            class Settings(NamedTuple):  # type: ignore  # noqa
+                host: str
+                retries: int = default
+        return Settings
+
+    def dc(default):
+        if default is None:
+            @dataclasses.dataclass
+            class Conf:
+                host: str
+                retries: int
+        else:
+            @dataclasses.dataclass
+            class Conf:  # type: ignore  # noqa
+                host: str
+                retries: int = default
+        return Conf
+
+    def td(total):
+        if total:
+            class Opts(TypedDict):
+                host: str
+                retries: int
+        else:
+            class Opts(TypedDict, total=False):  # type: ignore  # noqa
+                host: str
+                retries: int
+        return Opts
+    return [(nt(3), nt(None), nt(7)), (dc(3), dc(None), dc(7)), (td(True), td(False), td(True))]
+
+
+def construction_history(tier: str) -> Optional[str]:
+    import dataclasses
+    from typing import NamedTuple
+    from koda_validate import DataclassValidator, NamedTupleValidator, TypedDictValidator
+    for fam in _factory_classes():
+        mk = NamedTupleValidator if hasattr(fam[0], "_fields") else (DataclassValidator if dataclasses.is_dataclass(fam[0]) else TypedDictValidator)
+        first = [mk(k) for k in fam]                  # one after the other, same qualified name
+        later = []
+        for j, k in enumerate(fam):
+            for i in range(140 if tier == "quick" else 600):   # unrelated validators in between
+                NamedTupleValidator(NamedTuple("T%d_%d" % (j, i), [("a", int)]))
+                DataclassValidator(dataclasses.make_dataclass("D%d_%d" % (j, i), [("a", int)]))
+            later.append(mk(k))
+        probes = [{"host": "db1"}, {"host": "db1", "retries": 2}, {}, {"retries": 1}, {"host": 1}]
+        for k, a, b in zip(fam, first, later):
+            if not (a == b):
+                continue
+            for x in probes + ([k("h", 1)] if mk is not TypedDictValidator else []):
+                for mode in ("sync", "async"):
+                    try:
+                        r1 = a(x) if mode == "sync" else drive(a.validate_async(x))
+                    except Exception as e:  # noqa
+                        r1 = e
+                    try:
+                        r2 = b(x) if mode == "sync" else drive(b.validate_async(x))
+                    except Exception as e:  # noqa
+                        r2 = e
+                    if not results_equal(r1, r2):
+                        return (f"{a!r} == {b!r} (same class, built before / after other validators for classes of the same "
+                                f"qualified name) yet on {x!r} ({mode}) they return {r1!r} and {r2!r}")
+    return None
 
 
 def model_verdicts(lines, violations) -> int:
@@ -436,6 +543,13 @@ def replay(path: str) -> int:
     if not rc:
         print("no input in replay file:", j.get("what"))
         return 1
+    if rc.get("construction_history"):
+        r = construction_history("quick")
+        print("property violated: " + r if r else "property holds on this construction history")
+        return 1 if r else 0
+    if rc.get("overlap"):
+        from .hist import replay_special
+        return replay_special(rc, "C19")
     lazy = from_json(rc.get("lazy", []))
     ctx = Ctx(G.STD_CLASSES, lazy, random.Random(7))
     a = ctx.validator(from_json(rc["t"]))
